@@ -265,6 +265,42 @@ def same_state_object_case(col):
                              f"expected (30.0, 20.0, {want_lp})", "input": {"same_state_object": True, "key_sets": [["a"], ["b"]]}})
 
 
+def two_models_case(col):
+    """interfaces of TWO models in one process, whose models resolve the same position key to different nodes (default value node vs. an explicitly named
+    node; variable vs. bare node): each reads and writes its own model's nodes, whichever was used first"""
+    bad = []
+    for order in ("A_first", "B_first"):
+        xa = lsl.Var(np.float32(1.5), name="x")
+        auxa = lsl.Var(np.float32(7.0), name="aux")
+        ma = lsl.GraphBuilder().add(lsl.Var(lsl.Calc(lambda x_, a_: x_ + a_, xa, auxa), name="z")).build_model()
+        raw = lsl.Var(np.float32(10.0), name="raw")
+        xb = lsl.Var(lsl.Calc(lambda r_: (r_ - 4.0) / 2.0, raw, _name="x_std"), name="x")
+        auxb = lsl.Value(np.float32(-3.0), _name="aux")
+        mb = lsl.GraphBuilder().add(lsl.Var(lsl.Calc(lambda x_, a_: x_ * a_, xb, auxb), name="z")).build_model()
+        ia, ib = gs.LieselInterface(ma), gs.LieselInterface(mb)
+        want = {"A": {"x": 1.5, "aux": 7.0, "z": 8.5}, "B": {"x": 3.0, "aux": -3.0, "z": -9.0}}
+        for which in (("A", "B") if order == "A_first" else ("B", "A")):
+            iface, st = (ia, ma.state) if which == "A" else (ib, mb.state)
+            try:
+                got = {k: float(v) for k, v in iface.extract_position(["x", "aux", "z"], st).items()}
+            except Exception as e:
+                got = f"{type(e).__name__}: {e}"
+            if got != want[which]:
+                bad.append(f"{order}: extract_position(['x', 'aux', 'z']) on model {which} gives {got}, its state holds {want[which]}")
+        try:
+            out = ib.update_state({"raw": jnp.float32(6.0)}, mb.state)
+            got = {k: float(v) for k, v in ib.extract_position(["raw", "x"], out).items()}
+            if got != {"raw": 6.0, "x": 1.0}:
+                bad.append(f"{order}: update_state({{'raw': 6}}) then extract_position(['raw', 'x']) on model B gives {got}, expected raw 6.0 and x = (6 - 4) / 2 = 1.0")
+            out = ia.update_state({"x": jnp.float32(2.0)}, ma.state)
+            got = {k: float(v) for k, v in ia.extract_position(["x", "z"], out).items()}
+            if got != {"x": 2.0, "z": 9.0}:
+                bad.append(f"{order}: update_state({{'x': 2}}) then extract_position(['x', 'z']) on model A gives {got}, expected x 2.0, z 9.0")
+        except Exception as e:
+            bad.append(f"{order}: put/get raised {type(e).__name__}: {str(e)[:120]}")
+    col.add(None if not bad else {"sig": "native::interface::two_models_in_one_process", "what": "; ".join(bad[:3]), "input": {"models": "A: x on x_value, aux variable; B: x wraps node x_std = (raw - 4) / 2, aux bare node"}})
+
+
 def optional_none_case(col):
     """an OPTIONAL input whose value in the state is None (a legitimate value: 'no offset'): after an earlier call that gave it a value, a call
     on the ORIGINAL state returns it as None again - with everything derived from it - and the user's model is untouched"""
@@ -314,6 +350,10 @@ def bounded(tier, seed):
     except Exception as e:
         col.add({"sig": f"native::interface::exception::{type(e).__name__}", "what": str(e)[:200], "input": {"scenario": "same state object, different key sets"}})
     try:
+        two_models_case(col)
+    except Exception as e:
+        col.add({"sig": f"native::interface::exception::{type(e).__name__}", "what": str(e)[:200], "input": {"scenario": "two models in one process"}})
+    try:
         param_dependent_bijector_case(col)
     except Exception as e:
         col.add({"sig": f"native::interface::exception::{type(e).__name__}", "what": str(e)[:200], "input": {"scenario": "parameter-dependent default bijector"}})
@@ -346,7 +386,7 @@ def bounded(tier, seed):
     except Exception as e:
         col.add({"sig": f"native::interface::exception::{type(e).__name__}", "what": str(e)[:200], "input": {"scenario": "ambiguous key"}})
     return {"evaluations": col.evals, "distinct_nontrivial": col.evals,
-            "rule": (CORE_RULE + "; " + "BOUNDED: Liesel model with two parameters, a derived sigma and a LEAF derived node pred (feeds no distribution), user model with auto_update on and off: "
+            "rule": (CORE_RULE + "; " + "BOUNDED: interfaces of two models in one process that resolve the same key to different nodes (both orders of first use); Liesel model with two parameters, a derived sigma and a LEAF derived node pred (feeds no distribution), user model with auto_update on and off: "
                      "update_state eager vs a fresh interface (history independence) vs jax.jit vs jax.vmap vs direct assignment + full update on a new model, non-mutation of the input "
                      f"state and of the user's model, put/get, log_prob; a model built with the deprecated GraphBuilder.transform (calculation directly on a value node) updated through variable-name keys; put/get/non-mutation/log_prob for the dict, dataclass (also with field(init=False) fields holding non-default values) and named-tuple interfaces. seed={seed}"),
             "samples": [{"auto_update_of_user_model": False}], "exhaustive": False, "violations": col.violations}
